@@ -940,3 +940,84 @@ Qed.
 Theorem populate_ci_deterministic ms ncf nsf qs rows idxs idxs' :
   idxs = idxs' -> populate_ci ms ncf nsf qs rows idxs = populate_ci ms ncf nsf qs rows idxs'.
 Proof. intros ->. reflexivity. Qed.
+
+(* ------------------------------------------------------------------ *)
+(* the aligned index is part of the point estimate's index             *)
+(* ------------------------------------------------------------------ *)
+
+Lemma zinsert_In x l y : In y (zinsert x l) <-> y = x \/ In y l.
+Proof.
+  induction l as [| a l IH]; cbn [zinsert]; [cbn; intuition |].
+  destruct (Z.ltb x a); [cbn [In]; intuition |].
+  destruct (Z.eqb x a) eqn:E.
+  - apply Z.eqb_eq in E. subst a. cbn [In]. intuition.
+  - cbn [In]. rewrite IH. intuition.
+Qed.
+
+Lemma zuniq_In l y : In y (zuniq l) <-> In y l.
+Proof.
+  induction l as [| a l IH]; cbn [zuniq fold_right In]; [tauto |].
+  fold (zuniq l). rewrite zinsert_In, IH. intuition.
+Qed.
+
+Lemma product_mono (ls ls' : list (list Z)) :
+  Forall2 (fun a b => incl a b) ls ls' -> incl (product ls) (product ls').
+Proof.
+  induction 1 as [| a b ls ls' Hab Hrest IH]; [apply incl_refl |].
+  intros k Hk. cbn [product] in *. apply in_flat_map in Hk. destruct Hk as (x & Hx & Hk).
+  apply in_map_iff in Hk. destruct Hk as (k' & <- & Hk').
+  apply in_flat_map. exists x. split; [apply Hab, Hx |]. apply in_map, IH, Hk'.
+Qed.
+
+Lemma apply_functions_index_mono ms nn kf rows rows' :
+  incl rows' rows ->
+  incl (map fst (apply_functions ms nn kf rows')) (map fst (apply_functions ms nn kf rows)).
+Proof.
+  intros Hinc. unfold apply_functions. rewrite !map_map. cbn [fst]. rewrite !map_id.
+  assert (Hk : incl (map kf rows') (map kf rows)).
+  { intros k Hk. apply in_map_iff in Hk. destruct Hk as (r & <- & Hr). apply in_map, Hinc, Hr. }
+  destruct (Nat.ltb 1 nn).
+  - apply product_mono. apply Forall2_map_same. intros j _ x Hx.
+    rewrite zuniq_In in Hx. rewrite zuniq_In. unfold column in *.
+    apply in_map_iff in Hx. destruct Hx as (k & <- & Hkin).
+    apply in_map_iff. exists k. split; [reflexivity | apply Hk, Hkin].
+  - intros k Hin. rewrite kuniq_In in Hin. rewrite kuniq_In. apply Hk, Hin.
+Qed.
+
+(* ★ ci_shape (4): every group in the index of a resample's by_group frame, hence every key of the
+   aligned index of by_group_ci, is in the index of the point estimate's by_group *)
+Theorem by_group_index_in_point ms ncf nsf rows idx k :
+  valid_resample (length rows) idx ->
+  In k (map fst (d_by_group (create ms ncf nsf (resample rows idx)))) ->
+  In k (map fst (d_by_group (point ms ncf nsf rows))).
+Proof.
+  intros Hv. unfold point. cbn [create d_by_group]. apply apply_functions_index_mono.
+  intros r Hr. pose proof (resample_rows_in rows idx Hv) as H. rewrite Forall_forall in H. apply H, Hr.
+Qed.
+
+(* the re-indexed frames of _align_sample_indices: looking a key of the common index up in the
+   aligned frame gives the row used by aligned_cell *)
+Lemma assoc_map_key {V} (g : list Z -> V) idx k :
+  In k idx -> assoc k (map (fun k0 => (k0, g k0)) idx) = Some (g k).
+Proof.
+  induction idx as [| a idx IH]; [intros [] |]. intros Hin. cbn [map assoc].
+  destruct (key_eqb k a) eqn:E.
+  - unfold key_eqb in E. destruct (key_cmp k a) eqn:C; try discriminate.
+    apply key_cmp_eq in C. now subst a.
+  - destruct Hin as [-> | Hin]; [| apply IH, Hin].
+    unfold key_eqb in E. assert (C : key_cmp k k = Eq).
+    { clear. induction k as [| x k IH]; cbn [key_cmp]; [reflexivity |]. rewrite Z.compare_refl. exact IH. }
+    rewrite C in E. discriminate.
+Qed.
+
+Theorem align_lookup ncols fs f k :
+  In f fs -> In k (union_index fs) ->
+  exists f', In f' (align ncols fs) /\ lookup_row ncols k f' = lookup_row ncols k f /\
+             map fst f' = union_index fs.
+Proof.
+  intros Hf Hk. exists (map (fun k0 => (k0, lookup_row ncols k0 f)) (union_index fs)). split; [| split].
+  - unfold align. apply in_map_iff. exists f. split; [reflexivity | exact Hf].
+  - pose proof (assoc_map_key (fun k0 => lookup_row ncols k0 f) _ k Hk) as E.
+    cbv beta in E. unfold lookup_row, key in E |- *. rewrite E. reflexivity.
+  - rewrite map_map. cbn [fst]. apply map_id.
+Qed.
